@@ -354,6 +354,9 @@ func (t *Tokenizer) tokenizeBuffer(buf []byte, last bool) error {
 				off++
 			}
 			t.mode = fracMap
+			if t.num.Div == 1 { // no digit after the decimal point yet
+				t.mode = dotMap
+			}
 		case numFrac:
 			t.num.AddFrac(b)
 			t.mode = fracMap
